@@ -743,6 +743,84 @@ def c06_streams(ctx):
 
 
 # ------------------------------------------------------------------------------------------------
+# C08 / C09
+
+def component_values(ctx, cc, k, width):
+    """Strings to supply for a component of the given field width: exact, shorter, longer, combined, odd characters."""
+    rng = ctx.rng
+    row = ctx.facts["iban_rows"][cc]
+    kinds = "".join(kk * n for n, _b, kk in parse_structure(row["bban_spec"]))
+    s, e_ = (row.get("positions") or {}).get(k, [0, 0])
+    pool = lambda i: KINDS[kinds[s + i]] if s + i < len(kinds) else DIGITS   # noqa: E731
+    def conforming(n):
+        return "".join(rng.choice(pool(i)) for i in range(n))
+    vals = [conforming(width)]
+    if width > 1:
+        vals.append(conforming(rng.randrange(1, width)))
+    vals.append(conforming(width) + rng.choice(DIGITS))
+    vals.append("")
+    if not ctx.quick or rng.random() < 0.5:
+        v = conforming(width)
+        if v:
+            p = rng.randrange(len(v))
+            vals.append(v[:p] + rng.choice("-+ _aZ٣.") + v[p + 1:])
+            vals.append(" " + v[:p] + " " + v[p:].lower())
+    return vals
+
+
+def c08_inputs(ctx):
+    rng = ctx.rng
+    for cc in countries(ctx):
+        row = ctx.facts["iban_rows"][cc]
+        pos = row.get("positions") or {}
+        w = {k: pos.get(k, [0, 0])[1] - pos.get(k, [0, 0])[0] for k in ("bank_code", "branch_code", "account_code")}
+        banks = component_values(ctx, cc, "bank_code", w["bank_code"])
+        if w["branch_code"]:
+            banks.append(component_values(ctx, cc, "bank_code", w["bank_code"])[0] + component_values(ctx, cc, "branch_code", w["branch_code"])[0])
+        branches = component_values(ctx, cc, "branch_code", w["branch_code"]) if w["branch_code"] else ["", "", "1", "123"]
+        accounts = component_values(ctx, cc, "account_code", w["account_code"])
+        n = 8 if ctx.quick else 60
+        combos = [(rng.choice(banks), rng.choice(accounts), rng.choice(branches)) for _ in range(n)]
+        combos.append((banks[0], accounts[0], branches[0] if w["branch_code"] else ""))
+        for bk, ac, br in combos:
+            yield cc, bk, ac, br
+    for cc in ("XX", "", "de", "D", "DE ", "ZZ"):
+        yield cc, "12345678", "1234567890", ""
+
+
+def c08_streams(ctx):
+    for cc, bk, ac, br in c08_inputs(ctx):
+        args = [enc(cc), enc(bk), enc(ac), enc(br)]
+        yield Case("prop", "spec_generate", args, "generate-" + (cc if cc in TWEAK or cc == "DE" else "other"), True)
+        yield Case("corr", "generate", args, "generate", True)
+        yield Case("corr", "from_components", [enc(cc), enc(bk), enc(br), enc(ac)], "from_components", True)
+
+
+def c09_streams(ctx):
+    rng = ctx.rng
+    for cc, bk, ac, br in c08_inputs(ctx):
+        if (cc in TWEAK and cc not in ("CZ", "SK", "IS")) or (cc not in TWEAK and ctx.rng.random() < 0.2):
+            args = [enc(cc), enc(bk), enc(ac), enc(br)]
+            yield Case("prop", "spec_generate_national", args, "computed-validates-" + cc, True)
+            yield Case("corr", "generate", args, "generate", True)
+    # rebuild: nationally valid IBANs of every country with positions
+    n = 2 if ctx.quick else 20
+    for cc in NATIONAL:
+        if cc not in ctx.facts["iban_rows"]:
+            continue
+        valid = [b for b, v in national_candidates(ctx, cc, n) if v == "1"]
+        for b in valid[: (3 if ctx.quick else 40)]:
+            iban = cc + iso_digits(cc, b) + b
+            yield Case("prop", "spec_rebuild", [enc(iban)], "rebuild-" + cc, True)
+            yield Case("corr", "iban_decomp", [enc(iban), ";".join(enc(x) for x in ctx.facts["components"])], "rebuild-decomp", True)
+    for cc in countries(ctx):
+        if cc in TWEAK or cc == "DE":
+            continue
+        for _ in range(1 if ctx.quick else 5):
+            yield Case("prop", "spec_rebuild", [enc(valid_iban(ctx, cc))], "rebuild-other", True)
+
+
+# ------------------------------------------------------------------------------------------------
 # C07
 
 def german_methods(ctx):
@@ -874,6 +952,21 @@ PREDICATES = {"de76_remainder10": _pred_de76}
 
 
 REGISTRY = {
+    "C08": {
+        "streams": c08_streams,
+        "rule": "per country with published positions: bank / branch / account values of exact, shorter, longer and combined "
+                "width, empty, with whitespace/lower case, with out-of-class characters (-, +, _, letters, non-ASCII digits); "
+                "IBAN.generate must return an ISO-valid IBAN carrying each supplied component (cleaned, zero-padded) at its "
+                "published range, or raise a library error (own class for an over-long component); never drop/truncate/alter; "
+                "plus correspondence of generate / from_components with the model; unknown countries",
+    },
+    "C09": {
+        "streams": c09_streams,
+        "rule": "component combinations of the 19 countries with computed national digits through IBAN.generate followed by "
+                "validate(validate_bban=True); nationally valid IBANs (accept side selected by the extracted published-rule spec) "
+                "of every country with positions: BBAN.from_components(**components read off the IBAN) must reproduce the BBAN at "
+                "every position covered by a component",
+    },
     "C07": {
         "streams": c07_streams,
         "rule": "per implemented Bundesbank method: random ten-digit accounts (uniform, short with leading zeros, special "
